@@ -43,8 +43,8 @@ def run(chk):
                        "(in binary64 the convexity bound can fail by one ulp; the S lines allow 1e-9 relative)",
                        "grids strictly increasing with >= 2 points per axis (what the constructors validate, plus bins >= 2); "
                        "single-point axes (usize underflow panic in the specialised interpolators) are exercised, not claimed",
-                       "continuity is proved as border agreement + a Lipschitz identity inside each cell, not as an "
-                       "epsilon-delta statement"]
+                       "continuity (global Lipschitz bound, epsilon-delta) is proved for the converted speed/grade: the unit "
+                       "conversions are arbitrary functions in the theorems"]
     chk.proofs(extra_targets=["Model/InterpRun.vo"])
     binp = vf.build_harness("c14")
     quick = chk.tier == "quick"
